@@ -363,20 +363,24 @@ class ParseAPI(object):
         Key = self._network.keys.private
         # BRAIN DAMAGE
         generator = Key(1)._generator
-        for c in ",/":
-            if c in s:
-                s0, s1 = s.split(c, 1)
-                v0 = self.as_number(s0)
-                if v0:
-                    if s1 in ("even", "odd"):
-                        is_y_odd = s1 == "odd"
-                        point = generator.points_for_x(v0)[is_y_odd]
-                    v1 = self.as_number(s1)
-                    if v1:
-                        if generator.contains_point(v0, v1):
-                            point = generator.Point(v0, v1)
-        if point:
-            return self._network.keys.public(point)
+        try:
+            for c in ",/":
+                if c in s:
+                    s0, s1 = s.split(c, 1)
+                    v0 = self.as_number(s0)
+                    if v0:
+                        if s1 in ("even", "odd"):
+                            is_y_odd = s1 == "odd"
+                            point = generator.points_for_x(v0)[is_y_odd]
+                        v1 = self.as_number(s1)
+                        if v1:
+                            if generator.contains_point(v0, v1):
+                                point = generator.Point(v0, v1)
+            if point:
+                return self._network.keys.public(point)
+        except ValueError:
+            # no curve point with this x coordinate
+            pass
         return None
 
     def sec(self, s: str) -> Any:
